@@ -274,3 +274,51 @@ def rule_entry_points(u, rep):
                 rep.add("ENTRY", "flush:" + nm, "Serialize::%s returns without flushing the backend as its last stream operation (ends with %s): a buffering backend keeps the tail of the stream" % (nm, last), b.loc())
     rep.count("entry_points_compared", len(terms))
     return len(terms)
+
+
+# writers that hand a part of themselves to its writer directly, with the reason it is harmless for the rows
+BYPASS_EXEMPT = {
+    "SerIter<T, I>": "the Deep helper of SerIter writes its items without field names; a SerIter over deep items cannot be built with items (new/From require T: ZeroCopy, Default gives an empty iterator), so no row is ever missing",
+}
+
+
+def rule_no_bypass(u, ts, rep):
+    """BYPASS: inside a writer, a nested value reaches the stream through `backend.write(name, value)` -- the one place
+    where the recording writer opens a row -- never through `value._serialize_inner(backend)` directly. Delegating the
+    whole of self (self, `*self as u32`, the borrowed Vec of a slice) is not nesting: the row of self is the row."""
+    n = 0
+
+    def whole_of_self(v, depth=0):
+        if v == ("self",):
+            return True
+        if not isinstance(v, tuple) or not v or depth > 12:
+            return False
+        if v[0] in ("cast", "view", "manuallydrop", "deref"):
+            return any(whole_of_self(x, depth + 1) for x in v[1:] if isinstance(x, tuple))
+        if v[0] == "call" and v[1] in ("from_raw_parts", "deref", "as_slice", "borrow", "new", "as_ref") and v[2]:
+            # the fake Vec of `&[T]` is built from self's own pointer and length
+            return any(_mentions_self(a) for a in v[2])
+        return False
+
+    for t in ts:
+        if t.ser_impl is None:
+            continue
+        for p in t.paths.get("ser", []) or []:
+            for e in p.raw.events:
+                if e[0] == "W" and e[2] == "F" and len(e) > 5 and e[5] is None:
+                    n += 1
+                    ok = whole_of_self(e[4]) or t.key in BYPASS_EXEMPT
+                    rep.oblige(ok)
+                    if not ok:
+                        rep.add("BYPASS", t.key, "the writer of `%s` hands %s to its writer with `_serialize_inner(backend)` instead of `backend.write(name, ..)`: the recording writer opens no row for it, so the rows of the enclosing value have a gap there" % (t.key, label(e[4])[:60]), e[-1])
+                        break
+    rep.count("direct_serialize_inner_calls", n)
+    return n
+
+
+def _mentions_self(v, depth=0):
+    if v == ("self",):
+        return True
+    if not isinstance(v, tuple) or depth > 12:
+        return False
+    return any(_mentions_self(x, depth + 1) for x in v if isinstance(x, tuple))
